@@ -708,6 +708,10 @@ PREDICATES = {
     'flat_pair': pred_flat_pair,
     'short_list': pred_short_list,
 }
+# predicates whose verdict depends on the *leaf values* below the object (not only on its type / shape): an operation that replaces leaves
+# (unflatten with new leaves, tree_map) legitimately changes how the rebuilt tree is classified, so clauses that re-flatten a tree with replaced
+# leaves under the same predicate do not use them
+LEAF_CONTENT_PREDS = frozenset({'flat_pair'})
 DICT_MODES = ('sorted', 'ins-global', 'ins-ns')
 
 
